@@ -266,7 +266,7 @@ func (s *session) finish(hid int) outcome {
 		switch e["ev"] {
 		case "call":
 			o.Calls++
-		case "fail", "nsFail":
+		case "fail", "nsFail", "silent":
 			o.Fails++
 		case "msg":
 			n := len(e["sub"].([]string)) + len(e["unsub"].([]string))
